@@ -4,4 +4,4 @@ From Slock Require Import Aof.AofRec Aof.AofFile Aof.AofLoad Aof.Rewrite.
 Extraction "model.ml" mkfixes today repaired write_item flush apply_trace crash_image fresh_trace run_ops open_append
   load_files recover holds_of zero_buf header decode dset dget ddel find_aof_files
   compact_steps compact crash_after run_steps apply_mut has_lock_of
-  g_idle gstep grun glog alternates local_file.
+  g_idle gstep grun glog alternates local_file compact_steps_v.
